@@ -26,6 +26,11 @@ def decode_sent(sent):
     return out
 
 
+REBOOT_PKT = H.SOMEIPHeader(service_id=H.SD_SERVICE, method_id=H.SD_METHOD, client_id=0, session_id=1, interface_version=1,
+                            message_type=H.SOMEIPMessageType.NOTIFICATION,
+                            payload=bytes(H.SOMEIPSDHeader(entries=(), flag_reboot=True, flag_unicast=True).build())).build()
+
+
 def run_seq(seq):
     """seq: list of (dest index or None, empty?) -> list of 'flag:id' per non-empty send, via real send_sd"""
     loop = vloop.new_loop()
@@ -34,11 +39,22 @@ def run_seq(seq):
         tr = vloop.FakeTransport(loop)
         p.transport = tr
         res = []
-        for d, empty in seq:
+        for idx, (d, empty) in enumerate(seq):
             n0 = len(tr.sent)
             loop.call(p.send_sd, [] if empty else [ENTRY], d)
             new = decode_sent(tr.sent[n0:])
             res.append(new)
+            # "independently of the traffic": what the stack RECEIVES - including a detected reboot of the very peer it
+            # sends to - must not disturb the outgoing numbering (c08_stack_sends_follow_spec holds for every event list;
+            # gap found with seeded m99).  Two SD messages with the reboot flag and session id 1 from the destination:
+            # the second is a detected reboot.  Nothing may be transmitted in response (no services, nothing watched).
+            if d is not None and idx < 300 and idx % 4 == 1:
+                n1 = len(tr.sent)
+                for _ in range(2):
+                    loop.call(p.datagram_received, REBOOT_PKT, d, False)
+                    loop.run_until_idle()
+                if len(tr.sent) != n1:
+                    res[-1] = new + decode_sent(tr.sent[n1:])
         return res
     finally:
         loop.shutdown()
